@@ -141,12 +141,25 @@ type c18Rig struct {
 // receivers' inboxes are read by the harness itself: what arrives there is
 // exactly what the channel passed to deliver.
 func c18NewRig(n int) *c18Rig {
+	r := c18NewBareRig(n)
+	r.register(c18TypeA)
+	r.register(c18TypeB)
+	return r
+}
+
+// register installs the unmarshaler of a message type, as a protocol does
+// when it starts on a channel that may already be carrying its traffic.
+func (r *c18Rig) register(tpe string) {
+	r.ch.SetUnmarshaler(func() net.TaggedUnmarshaler { return &c18Payload{tpe: tpe} })
+}
+
+// c18NewBareRig: a receiving channel with n receivers and no message type
+// registered yet.
+func c18NewBareRig(n int) *c18Rig {
 	r := &c18Rig{ch: &channel{
 		name:               "c18",
 		unmarshalersByType: map[string]func() net.TaggedUnmarshaler{},
 	}}
-	r.ch.SetUnmarshaler(func() net.TaggedUnmarshaler { return &c18Payload{tpe: c18TypeA} })
-	r.ch.SetUnmarshaler(func() net.TaggedUnmarshaler { return &c18Payload{tpe: c18TypeB} })
 	for i := 0; i < n; i++ {
 		box := make(chan net.Message, 64)
 		r.boxes = append(r.boxes, box)
@@ -386,13 +399,41 @@ func TestVerif_C18_Attribution(t *testing.T) {
 	defer st.Flush()
 	secp, others := c18Pool()
 	rapid.Check(t, func(t *rapid.T) {
-		rig := c18NewRig(rapid.IntRange(1, 3).Draw(t, "receivers"))
+		rig := c18NewBareRig(rapid.IntRange(1, 3).Draw(t, "receivers"))
 		n := rapid.IntRange(1, 10).Draw(t, "envelopes")
+		// each message type is registered either from the start or late, before
+		// a drawn envelope - after envelopes of that type may already have
+		// arrived and been dropped (a protocol starting on a busy channel)
+		registerAt := map[string]int{}
+		registered := map[string]bool{}
+		for _, tpe := range []string{c18TypeA, c18TypeB} {
+			if rapid.IntRange(0, 2).Draw(t, "late:"+tpe) == 0 {
+				registerAt[tpe] = rapid.IntRange(1, n).Draw(t, "registerAt:"+tpe) // n = never during the sequence
+			}
+		}
 		var hist []string
 		labels := map[string]bool{}
-		bad, validAfterBad := false, false
+		bad, validAfterBad, lateAfterDrop := false, false, false
+		droppedUnregistered := map[string]bool{}
 		for i := 0; i < n; i++ {
+			for _, tpe := range []string{c18TypeA, c18TypeB} {
+				if !registered[tpe] && registerAt[tpe] == i {
+					rig.register(tpe)
+					registered[tpe] = true
+					if i > 0 {
+						hist = append(hist, "register("+tpe+")")
+					}
+				}
+			}
 			e := c18GenEnvelope(t, secp, others)
+			if !registered[string(e.tpe)] && (e.deliver || e.mayDeliv) {
+				// its type has no unmarshaler (yet): it has to be dropped
+				e.deliver, e.mayDeliv = false, false
+				e.class += "-type-not-yet-registered"
+				droppedUnregistered[string(e.tpe)] = true
+			} else if e.deliver && droppedUnregistered[string(e.tpe)] {
+				lateAfterDrop = true
+			}
 			err, panicked := rig.process(e)
 			got := rig.drain()
 			who := "?"
@@ -440,7 +481,8 @@ func TestVerif_C18_Attribution(t *testing.T) {
 		for l := range labels {
 			ls = append(ls, l)
 		}
-		ls = append(ls, fmt.Sprintf("bad-identity:%v", bad), fmt.Sprintf("valid-after-bad-identity:%v", validAfterBad))
+		ls = append(ls, fmt.Sprintf("bad-identity:%v", bad), fmt.Sprintf("valid-after-bad-identity:%v", validAfterBad),
+			fmt.Sprintf("valid-after-drop-of-its-unregistered-type:%v", lateAfterDrop))
 		st.Case(bad, strings.Join(hist, " "), ls...)
 	})
 }
